@@ -52,14 +52,18 @@ def scenarios(tier, seed):
                 joint = (k // 2) % 2 == 0
                 ev2 = {e: (k + i) % card[e] for i, e in enumerate(ev)}
                 virt = None
+                virt2 = None
                 if k % 5 == 0:
                     cand = [x for x in nodes if x not in q and x not in ev2]
                     if cand:
                         virt = cand[k % len(cand)]
+                        rest = [x for x in cand if x != virt]
+                        if rest and k % 10 == 0:
+                            virt2 = rest[0]
                 if tier == "quick" and ci > 0 and (k % 3):
                     continue
                 nh = 2 if tier == "quick" else 6
-                out.append(dict(family=f"ve.query/{sname}", nodes=nodes, parents=parents, card=card, q=q, ev=ev2, virt=virt,
+                out.append(dict(family=f"ve.query/{sname}", nodes=nodes, parents=parents, card=card, q=q, ev=ev2, virt=virt, virt2=virt2, virt_factor=(k % 15 == 0),
                                 order=order, joint=joint, states=style, names=names, hashseed=k % nh,
                                 prune=(k % 7 != 0), cost=len(C.sym_names(dict(nodes=nodes, parents=parents, card=card)))))
     return out
@@ -70,18 +74,27 @@ def run(desc, M):
     from pgmpy.inference import VariableElimination
     names = C.sym_names(desc)
     virt = desc.get("virt")
+    virt2 = desc.get("virt2")
     if virt:
         names = names + [f"lam{i}" for i in range(desc["card"][virt])]
+    if virt2:
+        names = names + [f"mu{i}" for i in range(desc["card"][virt2])]
     M.declare(names)
     tabs = C.make_tables(desc, M, positive=False)
     lam = None
+    lam2 = None
     if virt:
         lam = [M.sym(f"lam{i}", lo=0, hi=1) for i in range(desc["card"][virt])]
+    if virt2:
+        lam2 = [M.sym(f"mu{i}", lo=0, hi=1) for i in range(desc["card"][virt2])]
     jt = C.joint_table(desc, tabs)
     nodes = desc["nodes"]
     if lam:
         vi = nodes.index(virt)
         jt = {st: val * lam[st[vi]] for st, val in jt.items()}
+    if lam2:
+        vi2 = nodes.index(virt2)
+        jt = {st: val * lam2[st[vi2]] for st, val in jt.items()}
     pe = C.marginal(desc, jt, desc["ev"])
     M.assume(pe > 0, "P(evidence) > 0")
     M.mark_pos(pe)
@@ -95,8 +108,17 @@ def run(desc, M):
     kw = {}
     if virt:
         sn = C.state_names(desc.get("states", "default"), virt, desc["card"][virt])
-        kw["virtual_evidence"] = [TabularCPD(nm[virt], desc["card"][virt], [[M.impl(x)] for x in lam],
-                                             **({"state_names": {nm[virt]: sn}} if sn else {}))]
+        if desc.get("virt_factor"):
+            from pgmpy.factors.discrete import DiscreteFactor
+            kw["virtual_evidence"] = [DiscreteFactor([nm[virt]], [desc["card"][virt]], [M.impl(x) for x in lam],
+                                                     **({"state_names": {nm[virt]: sn}} if sn else {}))]
+        else:
+            kw["virtual_evidence"] = [TabularCPD(nm[virt], desc["card"][virt], [[M.impl(x)] for x in lam],
+                                                 **({"state_names": {nm[virt]: sn}} if sn else {}))]
+        if virt2:
+            sn2 = C.state_names(desc.get("states", "default"), virt2, desc["card"][virt2])
+            kw["virtual_evidence"].append(TabularCPD(nm[virt2], desc["card"][virt2], [[M.impl(x)] for x in lam2],
+                                                     **({"state_names": {nm[virt2]: sn2}} if sn2 else {})))
     qvars = [nm[v] for v in desc["q"]]
     if desc.get("prune", True) or virt or order == "greedy":
         res = ve.query(qvars, evidence=evidence, elimination_order=order, joint=desc["joint"], show_progress=False, **kw)
